@@ -235,6 +235,14 @@ static int cleanup(void)
 	}
 	return 0;
 }
+static void scramble(MPT_STRUCT(node) *l)
+{
+	for (; l; l = l->next) {
+		l->parent = 0;
+		l->prev = 0;
+		scramble(l->children);
+	}
+}
 static int get_tok(const char *s, MPT_STRUCT(node) **n)
 {
 	size_t v;
@@ -344,7 +352,32 @@ int main(void)
 			from = a;
 			slot = (a->parent && a->parent->children == a) ? &a->parent->children : &from;
 			moved = mpt_node_move(slot, b);
-			result_n("ok", (long) moved);
+			{
+				/* the list reference afterwards: first element that stayed (or none) */
+				char ret[64], verdict[64];
+				if (*slot) snprintf(verdict, sizeof(verdict), "ok:from=%d", tok_of(*slot));
+				else snprintf(verdict, sizeof(verdict), "ok:from=null");
+				snprintf(ret, sizeof(ret), "%ld", (long) moved);
+				result(verdict, ret);
+			}
+		}
+		else if (!strcmp(op, "swap") && drv_nw == 4) {
+			MPT_STRUCT(node) *t;
+			int below = 0;
+			if (get_tok(drv_w[2], &a) < 0 || get_tok(drv_w[3], &b) < 0) { puts("bad-op"); continue; }
+			/* neither may lie below the other */
+			for (t = a->parent; t; t = t->parent) if (t == b) below = 1;
+			for (t = b->parent; t; t = t->parent) if (t == a) below = 1;
+			if (below) { result("precond", "-"); continue; }
+			mpt_gnode_swap(a, b);
+			result("ok", "-");
+		}
+		else if (!strcmp(op, "relink") && (drv_nw == 3 || (drv_nw == 4 && !strcmp(drv_w[3], "scramble")))) {
+			if (get_tok(drv_w[2], &a) < 0) { puts("bad-op"); continue; }
+			/* "restore node links": parent and predecessor links below the node follow from the child and successor links */
+			if (drv_nw == 4) scramble(a->children);
+			mpt_gnode_relink(a);
+			result("ok", "-");
 		}
 		else if (!strcmp(op, "clone") && (drv_nw == 3 || (drv_nw == 4 && (!strcmp(drv_w[3], "tree") || !strcmp(drv_w[3], "list"))))) {
 			int list = drv_nw == 4 && drv_w[3][0] == 'l';
